@@ -31,6 +31,43 @@ ZZ == /\ Is("zz") /\ Step /\ UNCHANGED cps
          IN  IF Ev.dir = "to_nat" THEN ToNatV(xv) = y
              ELSE ToIntV(y, w) = xv
 
+\* ---- an exhaustive sweep of a whole type, run-length encoded by the driver: each
+\* segment is [first input (raw bits), steps, delta, first output (raw bits)] and says that
+\* `steps' consecutive inputs (stride apart) have outputs in arithmetic progression.
+\* The specification's map is linear on each sign-constant / parity-constant range, so a
+\* segment is right everywhere iff it is right at both ends and does not cross a range boundary
+\* (then its slope is forced).  The segments must tile the whole type.
+SegIn(sg) == BytesToVec(sg[1])
+SegSteps(sg) == BytesToNat(sg[2])
+SegOut(sg) == BytesToVec(sg[4])
+AddVecInt(v, k) == Low(Add(Norm(v), k), Len(v))                    \* raw bits + natural k, modulo the width
+ZZSweep ==
+    /\ Is("zz_sweep") /\ Step /\ UNCHANGED cps
+    /\ LET w == Ev.w  segs == Ev.segs  n == Len(segs)
+           stride == FromInt(Ev.stride)
+           \* raw bits of the last input of a segment
+           LastIn(sg) == AddVecInt(SegIn(sg), Mul(SegSteps(sg), stride))
+           \* observed raw output at the end of a segment: first output + steps * delta (mod 2^w)
+           LastOut(sg) == IF sg[3] >= 0 THEN AddVecInt(SegOut(sg), Mul(SegSteps(sg), FromInt(sg[3])))
+                          ELSE Low(SubMod(Norm(SegOut(sg)), Low(Mul(SegSteps(sg), FromInt(0 - sg[3])), w), w), w)
+           \* the specification at an input given by its raw bits
+           SpecAt(xb) == IF Ev.dir = "to_nat" THEN Low(ToNatV(xb), w) ELSE ToIntV(Norm(xb), w)
+           \* a segment must stay inside one linear range: same sign of the input for to_nat
+           \* (inputs walk MIN..MAX as signed, i.e. raw 100..0 -> 111..1 -> 000..0 -> 011..1)
+           SameRange(sg) == IF Ev.dir = "to_nat" THEN SegIn(sg)[1] = LastIn(sg)[1] ELSE TRUE
+       IN  /\ n >= 1 /\ n = Ev.nsegs /\ n <= 8
+           /\ \A i \in 1..n :
+                 /\ SpecAt(SegIn(segs[i])) = SegOut(segs[i])
+                 /\ SpecAt(LastIn(segs[i])) = LastOut(segs[i])
+                 /\ (SegSteps(segs[i]) = <<1>> \/ SameRange(segs[i]))
+                 /\ i < n => LastIn(segs[i]) = SegIn(segs[i + 1])        \* contiguous
+           \* the whole type is covered
+           /\ IF Ev.dir = "to_nat"
+              THEN SegIn(segs[1]) = <<1>> \o Zeros(w - 1) /\ LastIn(segs[n]) = <<0>> \o Ones(w - 1)
+              ELSE IF Ev.dir = "to_int_even"
+              THEN SegIn(segs[1]) = Zeros(w) /\ LastIn(segs[n]) = Ones(w - 1) \o <<0>>
+              ELSE SegIn(segs[1]) = Zeros(w - 1) \o <<1>> /\ LastIn(segs[n]) = Ones(w)
+
 \* ---- byte-level VByte
 VBBytes(variant, n) == IF variant \in {"be", "generic-be"} THEN VByteBytesBe(n) ELSE VByteBytesLe(n)
 VBWrite == /\ Is("vb_write") /\ Step /\ UNCHANGED cps
@@ -104,7 +141,7 @@ CPKraft == /\ Is("cp_kraft") /\ Step /\ UNCHANGED cps
                   total == Add(it.ksum, KTerm(it.last, Dec1(Pow2(64)), it.lastlen))
               IN  it.kind = "code" /\ it.ended /\ it.lastlen <= KScale /\ Leq(total, Pow2(KScale))
 
-Next == Reset \/ ZZ \/ VBWrite \/ VBRead \/ LenSteps \/ CPNew \/ CPNext \/ CPKraft
+Next == Reset \/ ZZ \/ ZZSweep \/ VBWrite \/ VBRead \/ LenSteps \/ CPNew \/ CPNext \/ CPKraft
 Spec == Init /\ [][Next]_vars
 Accepted ==
     LET d == TLCGet("stats").diameter
